@@ -225,6 +225,9 @@ def classify(hname, hspec, rc, timed_out, parsed, logtext):
     bad_status = [c for c in parsed["checks"] if c["status"] in ("ERROR", "UNDETERMINED")]
     failed = [c for c in parsed["checks"] if c["status"] == "FAILURE"]
     unsat_cov = [c for c in parsed["checks"] if c["status"] == "UNSATISFIABLE"]
+    unsupported = [c for c in failed if "not currently supported by Kani" in c["description"]]
+    if unsupported:
+        return "INCONCLUSIVE", "code uses a construct Kani cannot encode: " + unsupported[0]["description"][:120]
     if bad_status and not failed:
         return "INCONCLUSIVE", "solver status ERROR/UNDETERMINED"
     must = hspec.get("must_fail_with")
